@@ -10,6 +10,13 @@ def _f(mod, fn):
 
 
 PROPS = {
+    'C17': {
+        'lean': 'C17',
+        'corr': [_f('comp_coord', 'corr')],
+        'oracles': [_f('comp_coord', 'oracle')],
+        'modelled': ['futures.TransferCoordinator', 'futures.TransferFuture.set_exception',
+                     'atomicity of each coordinator operation (checked by the scheduled correspondence)'],
+    },
     'C16': {
         'lean': 'C16',
         'corr': [_f('comp_defer', 'corr')],
